@@ -1,5 +1,5 @@
-import NbioVerif.Model.Ws
-/-! probe: C13 per-frame validity table vs an independent transcription of RFC 6455 §5.2/§5.4/§5.5 (+ RFC 7692 §6 for RSV1) -/
+import NbioVerif.Lemmas.WsTables
+/-! C13 per-frame validity table vs an independent transcription of RFC 6455 §5.2/§5.4/§5.5 (+ RFC 7692 §6 for RSV1) -/
 namespace Ws
 
 /-- RFC view of one frame header in context.
@@ -9,34 +9,25 @@ def rfcFrameOk (compression : Bool) (opcode : Nat) (fin r1 r2 r3 expecting : Boo
   let known := opcode ≤ 2 || (8 ≤ opcode && opcode ≤ 10)
   -- §5.2: RSV2, RSV3 must be 0; RSV1 only with the extension, only on the first frame of a data message (RFC 7692 §6)
   let rsvOk := !r2 && !r3 && (!r1 || (compression && (opcode == 1 || opcode == 2)))
-  -- §5.2: reserved opcodes fail the connection
   -- §5.5: control frames must not be fragmented
   let ctlOk := !isControl || fin
   -- §5.4: a new data frame must not start inside a fragmented message; a continuation needs one
   let seqOk := (!(opcode == 1 || opcode == 2) || !expecting) && (!(opcode == 0) || expecting)
   known && rsvOk && ctlOk && seqOk
 
-def cfgOf (compression : Bool) : Cfg :=
-  { enableCompression := compression, msgLimit := 0, readLimit := 0, maxFrame := 1, isClient := false, maskKey := [] }
-
 /-- the model's per-frame acceptance: validFrame plus the opcode switch of the frame loop -/
 def modelFrameOk (compression : Bool) (opcode : Nat) (fin r1 r2 r3 expecting : Bool) : Bool :=
   (validFrame (cfgOf compression) opcode fin r1 r2 r3 expecting).isNone && opcode ≤ 10
 
-/-- everything the RFC allows is accepted (over the whole header space: 16 opcodes × 2⁶ flags) -/
-theorem rfc_ok_accepted :
+/-- over the whole header space (2 × 16 opcodes × 2⁵ flags) the frame-level decision of nbio is the RFC's -/
+theorem frameOk_eq_rfc :
     ∀ comp ∈ [true, false], ∀ op ∈ List.range 16, ∀ fin ∈ [true, false], ∀ r1 ∈ [true, false], ∀ r2 ∈ [true, false],
     ∀ r3 ∈ [true, false], ∀ ex ∈ [true, false],
-      rfcFrameOk comp op fin r1 r2 r3 ex = true → modelFrameOk comp op fin r1 r2 r3 ex = true := by
+      modelFrameOk comp op fin r1 r2 r3 ex = rfcFrameOk comp op fin r1 r2 r3 ex := by
   decide
 
-/-- the converse fails on exactly two classes: a continuation frame outside a fragmented message,
-    and RSV1 on control/continuation frames when compression is enabled -/
-theorem accepted_not_rfc_classes :
-    ∀ comp ∈ [true, false], ∀ op ∈ List.range 16, ∀ fin ∈ [true, false], ∀ r1 ∈ [true, false], ∀ r2 ∈ [true, false],
-    ∀ r3 ∈ [true, false], ∀ ex ∈ [true, false],
-      modelFrameOk comp op fin r1 r2 r3 ex = true → rfcFrameOk comp op fin r1 r2 r3 ex = false →
-        ((op == 0 && !ex) || (comp && r1 && !(op == 1 || op == 2))) = true := by
-  decide
+/-- `validFrame` only looks at the compression flag of the configuration -/
+theorem validFrame_cfg (g : Cfg) (op : Nat) (fin r1 r2 r3 ex : Bool) :
+    validFrame g op fin r1 r2 r3 ex = validFrame (cfgOf g.enableCompression) op fin r1 r2 r3 ex := rfl
 
 end Ws
